@@ -41,14 +41,19 @@ pub trait Rule: RuleClone + Debug + Send {
         };
         let (kind, expression) = self.unmake();
         let rendered = escaper.escaped_printable(&expression);
-        if kind == "equal" {
-            if escaper.has_unprintable(&expression) {
-                format!("{rendered} (escaped{quantifier})")
-            } else {
-                format!("{rendered}{equal_quantifier}")
+        let unprintable = escaper.has_unprintable(&expression);
+        match kind.as_str() {
+            // equality with unprintable characters can only be written down escaped
+            "equal" | "no-eol" if unprintable => format!("{rendered} (escaped{quantifier})"),
+            // an expression that ends like a modifier needs the explicit kind
+            "equal" if rendered.ends_with(')') => format!("{rendered} (equal{quantifier})"),
+            "equal" => format!("{rendered}{equal_quantifier}"),
+            // backslashes are doubled by the escaper only together with unprintables
+            "escaped" if !unprintable => {
+                format!("{} (escaped{quantifier})", rendered.replace('\\', "\\\\"))
             }
-        } else {
-            format!("{rendered} ({kind}{quantifier})")
+            "glob" if unprintable => format!("{rendered} (escaped) (glob{quantifier})"),
+            _ => format!("{rendered} ({kind}{quantifier})"),
         }
     }
 }
